@@ -3,11 +3,14 @@
    time.Parse make of it (independent oracles). *)
 From Coq Require Import List ZArith Bool.
 Require Import MTX.Lib.Utf8 MTX.Lib.Json MTX.Model.C37_LogJson.
+Require Export MTX.Model.C37_LogDest.   (* the cases name Config, Clock *)
 Import ListNotations.
 Local Open Scope Z_scope.
 
 Inductive case :=
-| Line (dest : Z)                 (* 0 stdout, 1 file *)
+| Line (cf : config)              (* Config dest structured useColor colour_on: 0 stdout / 1 file; Logger.Structured;
+                                     destinationStdout.useColor; color.Enable && color.SupportColor() at the time of the call *)
+       (ck : clock)               (* t.Date(), t.Clock() computed by the driver *)
        (ts : list Z)              (* t.Format(time.RFC3339Nano) computed by the driver *)
        (ts_ok : bool)             (* time.Parse(RFC3339Nano, decoded timestamp) equals the record's time *)
        (lvl : Z) (msg : list Z)   (* level, fmt.Sprintf(format, args...) *)
@@ -15,12 +18,32 @@ Inductive case :=
        (go_ok : bool)             (* json.Unmarshal accepted the line as an object with exactly 3 string members *)
        (go_ts go_level go_msg : list Z)   (* its decoded members *)
        (go_sanitized : list Z)    (* string([]rune(msg)): Go's own U+FFFD replacement *)
+| Burst (cf : config)             (* goroutines logging concurrently through one Logger; cf_structured = true *)
+        (ts : list Z) (ck : clock) (lvl : Z)
+        (msgs : list (list Z))    (* the formatted messages, one per record *)
+        (perm : list Z)           (* the order in which the driver found them in the output (indices into msgs) *)
+        (raw : list Z)            (* everything the destination wrote during the burst *)
+        (go_ok : bool)            (* json.Unmarshal accepted every line of raw (split at newlines) *)
+| Sys (lvl : Z) (msg : list Z)    (* destinationSysLog.log on a syslog.Writer dialled to the driver's socket *)
+      (got : option (Z * list Z)) (* severity (priority mod 8) and text after the "tag[pid]: " header; None: nothing was sent *)
 | QuoteV0 (msg out : list Z).     (* strconv.Quote(msg) = out: keeps the model of the pinned code honest *)
+
+Definition nth_msg (msgs : list (list Z)) (i : Z) : list Z := nth (Z.to_nat i) msgs [].
+
+Definition got_eqb (a b : option (Z * list Z)) : bool :=
+  match a, b with
+  | Some (s1, t1), Some (s2, t2) => (s1 =? s2) && list_eqb t1 t2
+  | None, None => true
+  | _, _ => false
+  end.
 
 Definition mismatch (c : case) : bool :=
   match c with
-  | Line _ ts _ lvl msg raw _ _ _ _ gs =>
-      negb (list_eqb (render ts lvl msg) raw) || negb (list_eqb (sanitize msg) gs)
+  | Line cf ck ts _ lvl msg raw _ _ _ _ gs =>
+      negb (list_eqb (dest_line cf ts ck lvl msg) raw) || negb (list_eqb (sanitize msg) gs)
+  | Burst cf ts ck lvl msgs perm raw _ =>
+      negb (list_eqb (stream cf (map (fun i => LogRec ts ck lvl (nth_msg msgs i)) perm)) raw)
+  | Sys lvl msg got => negb (got_eqb (syslog_record lvl msg) got)
   | QuoteV0 msg out => negb (list_eqb (go_quote (fun _ => true) msg) out)
   end.
 
@@ -33,9 +56,42 @@ Definition spec_level (lvl : Z) : list Z :=
 Definition opt_eqb (o : option (list Z)) (v : list Z) : bool :=
   match o with Some x => list_eqb x v | None => false end.
 
+(* a line (with its newline) is a JSON object with exactly the members of the record *)
+Definition line_is_record (l ts : list Z) (lvl : Z) (msg : list Z) : bool :=
+  one_line l &&
+  match parse_line l with
+  | Some ms => (length ms =? 3)%nat
+               && opt_eqb (lookup key_timestamp ms) ts
+               && opt_eqb (lookup key_level ms) (spec_level lvl)
+               && opt_eqb (lookup key_message ms) (sanitize msg)
+  | None => false
+  end.
+
+Definition count_Z (x : Z) (l : list Z) : nat := length (filter (Z.eqb x) l).
+
+(* perm lists every index 0..n-1 exactly once *)
+Definition is_perm (n : nat) (perm : list Z) : bool :=
+  (length perm =? n)%nat && forallb (fun i => (count_Z (Z.of_nat i) perm =? 1)%nat) (seq 0 n).
+
+Fixpoint all2 {A B} (f : A -> B -> bool) (xs : list A) (ys : list B) : bool :=
+  match xs, ys with
+  | [], [] => true
+  | x :: xs', y :: ys' => f x y && all2 f xs' ys'
+  | _, _ => false
+  end.
+
+(* severities of log/syslog for the four levels *)
+Definition spec_severity (lvl : Z) : option Z :=
+  match lvl with 1 => Some 7 | 2 => Some 6 | 3 => Some 4 | 4 => Some 3 | _ => None end.
+
+Definition strip_nl (s : list Z) : list Z :=
+  match rev s with c :: r => if c =? 10 then rev r else s | [] => s end.
+
 Definition spec_fail (c : case) : bool :=
   match c with
-  | Line _ ts ts_ok lvl msg raw go_ok go_ts go_level go_msg gs =>
+  | Line cf _ ts ts_ok lvl msg raw go_ok go_ts go_level go_msg gs =>
+    if negb (cf_structured cf) then false     (* the property speaks about structured logging only *)
+    else
       negb (one_line raw && ts_ok && go_ok
             && list_eqb go_ts ts && list_eqb go_level (spec_level lvl) && list_eqb go_msg gs
             && match parse_line raw with
@@ -45,5 +101,17 @@ Definition spec_fail (c : case) : bool :=
                             && opt_eqb (lookup key_message ms) (sanitize msg)
                | None => false
                end)
+  | Burst cf ts _ lvl msgs perm raw go_ok =>
+      (* the output of concurrent records splits at the newlines into exactly one JSON line per record *)
+      negb (cf_structured cf && go_ok && is_perm (length msgs) perm
+            && all2 (fun l i => line_is_record l ts lvl (nth_msg msgs i)) (lines raw) perm)
+  | Sys lvl msg got =>
+      (* syslog is never structured: the record's level becomes the severity, its formatted message the text *)
+      negb match spec_severity lvl, got with
+           | Some sev, Some (s, txt) => (s =? sev) && (list_eqb txt msg || list_eqb txt (msg ++ [10]))
+                                        && list_eqb (strip_nl txt) (strip_nl msg)
+           | None, None => true
+           | _, _ => false
+           end
   | QuoteV0 _ _ => false
   end.
